@@ -8,7 +8,7 @@ END words; the call part must not react to the END record and the result part mu
 """
 import re
 
-from vlib import core, ev, domain, histories as H, render
+from vlib import core, ev, domain, histories as H, render, stream
 
 LEVEL = 'exploration'
 RULE = ('every decodable BSD syscall x START tuples x END tuples (error word: 0, every Darwin errno 1..106, unknown codes, '
@@ -159,6 +159,12 @@ def check_decoder(res, ctx, rng, name):
                 return
     res.case((name, tuple(start), 0))
     res.count('decoders_checked')
+    if len(STREAM_CASES) < 4000:
+        for end in ([0] + ret, [rng.randrange(1, 107)] + ret):
+            STREAM_CASES.append((H.syscall(name, start, end), [r(start, end)], f'{name} end={[hex(w) for w in end]}'))
+
+
+STREAM_CASES = []
 
 
 def run(ctx):
@@ -167,8 +173,9 @@ def run(ctx):
     inv = H.inventory()
     for i, name in enumerate(inv['bsd']):
         if ctx.mine(i):
-            for rep in range(ctx.pick(1, 6)):
+            for rep in range(ctx.pick(1, 40)):
                 check_decoder(res, ctx, rng, name)
+    stream.run_stream(res, 'c10', STREAM_CASES, rng, 'result renderings')
     if ctx.shard == 0:
         res.sample({'decoder': 'BSC_read', 'success': render_outer('BSC_read', (3, 0x1000, 64, 0), (0, 64, 0, 0)),
                     'error': render_outer('BSC_read', (3, 0x1000, 64, 0), (35, 64, 0, 0)),
@@ -182,6 +189,7 @@ def run(ctx):
     res.require('success_results_checked', 50)
     res.require('decoders_checked', 50)
     res.require('long_windows', 20)
+    res.require('stream_windows_one_thread', 20)
     return res
 
 
